@@ -393,3 +393,34 @@ example :
     (gaussianFilterG id (fun x => x == 0) .reflect f fun ax =>
       gaussWeightsG (Nat.cast : Nat → ℚ) (fun x => 1 / (1 + x * x)) 2 1 ax).data = #[0, 0, 0, 0, 0, 0] := by
   decide +kernel
+
+/-- **C06-T5 (`laplacian_2D`: the weights sum to 0).** Over any field, for every `alpha` with
+`alpha + 1 ≠ 0` (in particular every `alpha` clamped to `[0, 1]` in an ordered field), the nine weights
+`laplacianWeightsG` computes — `alpha/(alpha+1)` on the diagonals, `(1−alpha)/(alpha+1)` on the
+vertical/horizontal neighbours, `−4/(alpha+1)` at the centre — sum to 0; hence, in the `nearest` mode
+`laplacian_2D` uses (and in every extending mode), the generic kernel with these weights returns 0 at
+every pixel of a constant 2-D image. -/
+theorem C06_laplacian_weights_sum_zero {K : Type} [Field K] (alpha : K) (ha : alpha + 1 ≠ 0) :
+    (laplacianWeightsG (Nat.cast : Nat → K) alpha).size = 9 ∧
+    (laplacianWeightsG (Nat.cast : Nat → K) alpha).toList.sum = 0 ∧
+    (∀ (isZero : K → Bool), (∀ x, isZero x = true → x = 0) →
+      ∀ (m : Mode), Extending m → ∀ (f : Img K) (c : K), f.shape.length = 2 →
+      (∀ q, inside f.shape q = true → f.getD q 0 = c) → ∀ p, inside f.shape p = true →
+        convAcc m f (support isZero [3, 3] (laplacianWeightsG (Nat.cast : Nat → K) alpha)) p = 0) := by
+  have hsum : (laplacianWeightsG (Nat.cast : Nat → K) alpha).toList.sum = 0 := by
+    simp only [laplacianWeightsG, List.sum_cons, List.sum_nil, Nat.cast_one, Nat.cast_ofNat]
+    field_simp
+    ring
+  refine ⟨rfl, hsum, fun isZero hz m hm f c h2 hc p hp => ?_⟩
+  have hs := inside_dims_pos _ _ hp
+  rw [C06_convolve_eq_spec isZero hz m f hs,
+    convSpec_const m hm f c hc hs [3, 3] _ p (inside_length _ _ hp) (by rw [h2]; rfl)]
+  have h9 : shapeSize [3, 3] = (laplacianWeightsG (Nat.cast : Nat → K) alpha).size := rfl
+  rw [h9, range_map_getD, hsum, zero_mul]
+
+/-- non-vacuity of T5 over ℚ, `alpha = 1/5` (the default): the weights, and their sum. -/
+example :
+    laplacianWeightsG (Nat.cast : Nat → ℚ) (1 / 5) =
+      #[1 / 6, 2 / 3, 1 / 6, 2 / 3, -10 / 3, 2 / 3, 1 / 6, 2 / 3, 1 / 6] ∧
+    ((1 : ℚ) / 5 + 1 ≠ 0) := by
+  decide +kernel
